@@ -243,6 +243,10 @@ def churn_same_case(case):
     return 2 * case['rounds']
 
 
+# the cheap legs run once more under the runner's ambient configurations (python -O, other logger levels)
+AMBIENT_LEGS = True
+
+
 def run(ctx):
     for kind in ('list', 'tuple'):
         for items in (1, 2, 5, 60):
@@ -263,7 +267,10 @@ def run(ctx):
                 ctx.report(case, v)
                 return
     ctx.leg('churn', note='8 sequences of 120 short-lived lists with 3 / 48 / 64 / 200 values')
-    if ctx.tier == 'quick':
+    if ctx.small:
+        vals = ['int', 'str', 'empty', 'one', 'two', 'tuple_rep', 'range2', 'nparr', 'none', 'np2d', 'np0d']
+        plan = [('empty', vals, 2), ('dict_ab', vals[:5], 2)]
+    elif ctx.tier == 'quick':
         vals = ['int', 'str', 'empty', 'one', 'two', 'tuple_rep', 'range2', 'nparr', 'none', 'np2d', 'np0d']
         plan = [('empty', vals, 3), ('dict_ab', vals[:5], 2), ('empty_dict', vals[:3], 1), ('dict_ba', vals[3:8], 2)]
     else:
